@@ -16,7 +16,9 @@ EXPLANATION = (
     "task manager is shut down (otherwise it is cancelled); opened sockets have a close reachable from unload; raw "
     "ensure_future results are registered or awaited; TaskManager gates (no registration after shutdown, no duplicate "
     "live name, replace_task re-registers only in the old task's done-callback, shutdown flag before cancellation); "
-    "Overlay.unload removes the listener before shutting tasks down; _deliver_later re-checks registration. "
+    "Overlay.unload removes the listener before shutting tasks down; _deliver_later re-checks registration; an entry a removal takes out of a "
+    "table of open resources is closed without suspending in between (unload only sees what is still in the table); the low-level runners await "
+    "the scheduled step itself and nothing in task-manager code is shielded from cancellation. "
     "'At whatever moment' (schedules) is not explored beyond these orderings."
 )
 
@@ -28,6 +30,214 @@ def overlay_classes(ctx: Ctx) -> list[ClassInfo]:
 
 def _awaited(call: ast.Call) -> bool:
     return isinstance(parent(call), ast.Await)
+
+
+# ----------------------------------------------------------------------------------- shape-independent helpers
+_SNAPSHOT_CTORS = ("list", "tuple", "sorted", "set", "frozenset")
+_COMPREHENSIONS = (ast.ListComp, ast.SetComp, ast.GeneratorExp, ast.DictComp)
+_LOOP_ESCAPES = (ast.Break, ast.Continue, ast.Return, ast.Raise)
+
+
+def _enumerated_table(fi: FuncInfo, it: ast.AST) -> tuple[str | None, bool, str]:
+    """
+    What does iterating over `it` enumerate?  -> (chain of the mapping, is a snapshot, 'keys' | 'items').
+    `list(t.keys())`, `list(t)`, `tuple(t)`, `sorted(t)`, `[*t]`, `t.copy()`, `t.keys()`, `t`, `list(t.items())` (also through a local alias).
+    """
+    it = resolve(fi, it)
+    snap = False
+    if isinstance(it, ast.Call) and isinstance(it.func, ast.Name) and it.func.id in _SNAPSHOT_CTORS and len(it.args) == 1:
+        snap, it = True, resolve(fi, it.args[0])
+    elif isinstance(it, (ast.List, ast.Tuple)) and len(it.elts) == 1 and isinstance(it.elts[0], ast.Starred):
+        snap, it = True, resolve(fi, it.elts[0].value)
+    if isinstance(it, ast.Call) and isinstance(it.func, ast.Attribute) and it.func.attr == "copy" and not it.args:
+        snap, it = True, resolve(fi, it.func.value)
+    kind = "keys"
+    if isinstance(it, ast.Call) and isinstance(it.func, ast.Attribute) and it.func.attr in ("keys", "items") and not it.args:
+        kind, it = it.func.attr, it.func.value
+    return chain(it), snap, kind
+
+
+def _loop_var(target: ast.AST, kind: str) -> str | None:
+    if kind == "items":
+        target = target.elts[0] if isinstance(target, (ast.Tuple, ast.List)) and len(target.elts) == 2 else None
+    return target.id if isinstance(target, ast.Name) else None
+
+
+def _called_for_every_key(fi: FuncInfo, call: ast.Call, key: ast.AST | None, table: str, *, need_snapshot: bool = True) -> bool:
+    """
+    Is `call` made once for EVERY key of the mapping `table`, with `key` being that key?
+    True iff key is the loop variable of an enclosing for-statement or comprehension generator that enumerates (a snapshot of)
+    the table, and nothing between that loop and the call can skip an element (no filter, no condition, no break/continue/return).
+    for-loop + append, comprehension, tuple/list/sorted snapshots and local aliases of the iterable are all the same to this test.
+    """
+    key = strip_cast(key) if key is not None else None
+    if not isinstance(key, ast.Name):
+        return False
+    conditional = False
+    cur: ast.AST = call
+    for a in ancestors(call):
+        if isinstance(a, (ast.FunctionDef, ast.AsyncFunctionDef, ast.Lambda)):
+            break
+        if isinstance(a, ast.For):
+            tab, snap, kind = _enumerated_table(fi, a.iter)
+            if tab == table and _loop_var(a.target, kind) == key.id:
+                in_body = any(cur is s for s in a.body)
+                escapes = any(isinstance(x, _LOOP_ESCAPES) for s in a.body for x in walk_no_nested(s))
+                return in_body and not conditional and not escapes and (snap or not need_snapshot)
+            conditional = conditional or not any(cur is s for s in a.body)
+        elif isinstance(a, _COMPREHENSIONS):
+            for g in a.generators:
+                tab, snap, kind = _enumerated_table(fi, g.iter)
+                if tab == table and _loop_var(g.target, kind) == key.id:
+                    unfiltered = not any(gg.ifs or gg.is_async for gg in a.generators)
+                    consumed = not isinstance(a, ast.GeneratorExp) or isinstance(parent(a), (ast.Call, ast.Starred))   # a lazy generator calls nothing until consumed
+                    in_elt = not any(cur is gg.iter for gg in a.generators)
+                    return unfiltered and consumed and in_elt and not conditional and (snap or not need_snapshot)
+            conditional = conditional or any(gg.ifs for gg in a.generators)
+        elif isinstance(a, (ast.If, ast.IfExp, ast.While, ast.Match, ast.AsyncFor, ast.ExceptHandler)):
+            conditional = True
+        elif isinstance(a, ast.Try) and any(cur is s for s in a.orelse):
+            conditional = True
+        elif isinstance(a, ast.BoolOp) and a.values[0] is not cur:
+            conditional = True
+        cur = a
+    return False
+
+
+def _carries(expr: ast.AST | None, names: set[str]) -> bool:
+    """Does expr evaluate to a collection that contains all elements of one of the local collections `names`?"""
+    if expr is None:
+        return False
+    expr = strip_cast(expr)
+    if isinstance(expr, ast.Name):
+        return expr.id in names
+    if isinstance(expr, ast.Starred):
+        return _carries(expr.value, names)
+    if isinstance(expr, ast.BinOp) and isinstance(expr.op, ast.Add):
+        return _carries(expr.left, names) or _carries(expr.right, names)
+    if isinstance(expr, (ast.List, ast.Tuple, ast.Set)):
+        return any(isinstance(e, ast.Starred) and _carries(e.value, names) for e in expr.elts)
+    if isinstance(expr, ast.Call) and isinstance(expr.func, ast.Name) and expr.func.id in ("list", "tuple", "set") and len(expr.args) == 1:
+        return _carries(expr.args[0], names)
+    return False
+
+
+def _value_flow(fi: FuncInfo, k: ast.Call) -> tuple[bool, set[str], list[ast.AST]]:
+    """
+    Where does the value of call k go?  -> (directly awaited / element of an awaited gather, local collections that receive it,
+    the expressions (k itself, list displays, comprehensions) that hold it).
+    Follows: element of a list/tuple/set display or comprehension, `*` unpacking, list()/tuple() copies, `name = ...`,
+    `name += ...`, `name.append/extend/add/insert(...)`, and then copies of those collections into other locals.
+    """
+    names: set[str] = set()
+    holders: list[ast.AST] = [k]
+    awaited = False
+    cur: ast.AST = k
+    while True:
+        p = parent(cur)
+        if isinstance(p, ast.Await):
+            awaited = True
+            break
+        if isinstance(p, (ast.List, ast.Tuple, ast.Set, ast.Starred)):
+            cur = p
+        elif isinstance(p, (ast.ListComp, ast.SetComp, ast.GeneratorExp)) and p.elt is cur:
+            cur = p
+        elif isinstance(p, ast.Call) and cur in p.args:
+            nm = call_name(p)
+            if nm in ("gather", "wait") and _awaited(p):
+                awaited = True
+                break
+            if nm in ("list", "tuple", "set") and isinstance(p.func, ast.Name):
+                cur = p
+            elif nm in ("append", "extend", "add", "insert") and isinstance(p.func, ast.Attribute) and isinstance(p.func.value, ast.Name):
+                names.add(p.func.value.id)
+                break
+            else:
+                break
+        elif isinstance(p, (ast.Assign, ast.AnnAssign, ast.AugAssign)) and p.value is cur:
+            for t in (p.targets if isinstance(p, ast.Assign) else [p.target]):
+                if isinstance(t, ast.Name):
+                    names.add(t.id)
+            break
+        else:
+            break
+        holders.append(cur)
+    # copies of the receiving collections into other local collections
+    changed = bool(names)
+    while changed:
+        changed = False
+        for n in walk_no_nested(fi.node):
+            tgt = None
+            if isinstance(n, (ast.Assign, ast.AnnAssign, ast.AugAssign)) and n.value is not None and _carries(n.value, names):
+                ts = n.targets if isinstance(n, ast.Assign) else [n.target]
+                tgt = next((t.id for t in ts if isinstance(t, ast.Name)), None)
+            elif isinstance(n, ast.Call) and call_name(n) == "extend" and isinstance(n.func, ast.Attribute) and isinstance(n.func.value, ast.Name) \
+                    and n.args and _carries(n.args[0], names):
+                tgt = n.func.value.id
+            if tgt is not None and tgt not in names:
+                names.add(tgt)
+                changed = True
+    return awaited, names, holders
+
+
+def _awaits_of_collections(fi: FuncInfo, names: set[str]) -> list[ast.AST]:
+    """Sites that wait for every element of one of the local collections: awaited gather/wait over it, or `for x in coll: await x`."""
+    out: list[ast.AST] = []
+    if not names:
+        return out
+    for g in calls(fi):
+        if call_name(g) in ("gather", "wait") and _awaited(g) and any(_carries(a, names) for a in g.args):
+            out.append(g)
+    for n in walk_no_nested(fi.node):
+        if isinstance(n, ast.Await) and isinstance(n.value, ast.Name) and n.value.id in names:
+            out.append(n)
+        if isinstance(n, ast.For) and isinstance(n.target, ast.Name) and _carries(n.iter, names):
+            aw = [x for s in n.body for x in walk_no_nested(s) if isinstance(x, ast.Await) and chain(x.value) == n.target.id]
+            if aw and not any(isinstance(x, (ast.Break, ast.Return)) for s in n.body for x in walk_no_nested(s)):
+                out.append(n)
+    return out
+
+
+def _nonempty_test(test: ast.AST, coll: str) -> bool:
+    """`while coll:` / `while len(coll):` / `while len(coll) > 0:` / `while len(coll) != 0:` / `while coll != []:`"""
+    def is_len(e):
+        return isinstance(e, ast.Call) and chain(e.func) == "len" and len(e.args) == 1 and chain(e.args[0]) == coll
+    if chain(test) == coll or is_len(test):
+        return True
+    if isinstance(test, ast.Compare) and len(test.ops) == 1:
+        l, op, r = test.left, test.ops[0], test.comparators[0]
+        if is_len(l) and const_value(r) == 0 and isinstance(op, (ast.Gt, ast.NotEq)):
+            return True
+        if is_len(l) and const_value(r) == 1 and isinstance(op, ast.GtE):
+            return True
+        if is_len(r) and const_value(l) == 0 and isinstance(op, (ast.Lt, ast.NotEq)):
+            return True
+        if chain(l) == coll and isinstance(op, ast.NotEq) and isinstance(r, (ast.List, ast.Tuple)) and not r.elts:
+            return True
+    return False
+
+
+def _unloads_every_bootstrapper(fi: FuncInfo, call: ast.Call, coll: str = "self.bootstrappers") -> bool:
+    """`call` (= <x>.unload()) is made for every element of coll: drain loop `while coll: coll.pop().unload()` or a loop over coll."""
+    recv = call.func.value
+    if _called_for_every_key(fi, call, recv, coll, need_snapshot=False):
+        return True
+    r = resolve(fi, recv)
+    if not (isinstance(r, ast.Call) and chain(r.func) in (coll + ".pop", coll + ".popleft")):
+        return False
+    cur: ast.AST = call
+    for a in ancestors(call):
+        if isinstance(a, (ast.FunctionDef, ast.AsyncFunctionDef, ast.Lambda)):
+            return False
+        if isinstance(a, ast.While):
+            return _nonempty_test(a.test, coll) and any(cur is s for s in a.body) and \
+                not any(isinstance(x, _LOOP_ESCAPES) for s in a.body for x in walk_no_nested(s))
+        if isinstance(a, (ast.If, ast.IfExp, ast.For, ast.AsyncFor, ast.Match, ast.ExceptHandler, *_COMPREHENSIONS)):
+            return False
+        if isinstance(a, ast.BoolOp) and a.values[0] is not cur:
+            return False
+        cur = a
+    return False
 
 
 def rule_super_chain(ctx: Ctx) -> None:
@@ -57,8 +267,8 @@ def rule_super_chain(ctx: Ctx) -> None:
     ctx.check(ok, "super-chain", ou, ou.node, "Overlay.unload: remove_listener(self) then await shutdown_task_manager() on every path",
               "Overlay.unload does not stop listening before (or does not) shut its task manager down")
     cu = ctx.repo.method("Community", "unload", "ipv8/community.py")
-    bu = [x for x in calls(cu) if chain(x.func) == "bootstrapper.unload"]
-    ok = bool(bu) and any(isinstance(a, ast.While) and chain(a.test) == "self.bootstrappers" for a in ancestors(bu[0]))
+    ok = any(_unloads_every_bootstrapper(cu, x) for x in calls(cu) if isinstance(x.func, ast.Attribute) and x.func.attr == "unload"
+             and not (isinstance(x.func.value, ast.Call) and chain(x.func.value.func) == "super"))
     ctx.check(ok, "super-chain", cu, cu.node, "Community.unload unloads every bootstrapper", "bootstrappers are not unloaded")
 
 
@@ -208,29 +418,11 @@ def rule_awaited_release(ctx: Ctx) -> None:
                 continue
             n += 1
             # is the returned future awaited / gathered before super().unload()?
-            awaited = _awaited(k)
+            # the future flows (through list displays / comprehensions / append / += / copies) into something that is awaited afterwards
+            awaited, names, _ = _value_flow(fi, k)
             if not awaited:
-                st = enclosing_stmt(k)
-                # collected into a list that is later gathered / awaited
-                names = []
-                p = parent(k)
-                if isinstance(p, ast.Call) and call_name(p) == "append" and isinstance(p.func.value, ast.Name):
-                    names.append(p.func.value.id)
-                if isinstance(st, ast.Assign) and isinstance(st.targets[0], ast.Name):
-                    names.append(st.targets[0].id)
-                for a in ancestors(k):
-                    if isinstance(a, (ast.ListComp, ast.GeneratorExp)):
-                        s2 = enclosing_stmt(a)
-                        if isinstance(s2, ast.Assign) and isinstance(s2.targets[0], ast.Name):
-                            names.append(s2.targets[0].id)
-                        if isinstance(parent(a), ast.Starred) or isinstance(parent(a), ast.Call):
-                            g = parent(a) if isinstance(parent(a), ast.Call) else parent(parent(a))
-                            if isinstance(g, ast.Call) and call_name(g) in ("gather", "wait") and _awaited(g):
-                                awaited = True
-                for g in calls(fi):
-                    if call_name(g) in ("gather", "wait") and _awaited(g):
-                        if any(isinstance(x, ast.Name) and x.id in names for a in g.args for x in ast.walk(a)):
-                            awaited = True
+                after = cfg.reach([v for kn in cfg.nodes_for(k) for v, lab in kn.succ if lab != "exc"])
+                awaited = any(gn in after for g in _awaits_of_collections(fi, names) for gn in cfg.nodes_for(g))
             delays = sorted({norm(s.args[0]) for t in targets for s in calls(t, "sleep") if s.args})
             ctx.check(awaited, "awaited-release", fi, k, f"{c.name}.unload awaits `{ch}` (releases {rel})",
                       f"{c.name}.unload starts the @task `{ch}` (which releases {rel}" + (f" after sleeping {delays}" if delays else "") +
@@ -257,11 +449,10 @@ def rule_sockets(ctx: Ctx) -> None:
     tc = repo.cls("TunnelCommunity")
     un = tc.methods["unload"]
     res = repo.method("TunnelCommunity", "remove_exit_socket")
-    ok = any(chain(k.func) == "self.remove_exit_socket" for k in calls(un)) and \
-        any(isinstance(a, ast.For) and norm(a.iter) == "list(self.exit_sockets.keys())" for k in calls(un, "self.remove_exit_socket") for a in ancestors(k))
+    ok = any(_called_for_every_key(un, k, arg(k, 0, "circuit_id"), "self.exit_sockets") for k in calls(un, "self.remove_exit_socket"))
     ctx.check(ok, "sockets", un, un.node, "TunnelCommunity.unload removes every exit socket", "exit sockets are not torn down on unload")
     for t, rem in (("self.circuits", "remove_circuit"), ("self.relay_from_to", "remove_relay")):
-        ok = any(isinstance(a, ast.For) and norm(a.iter) == f"list({t}.keys())" for k in calls(un, f"self.{rem}") for a in ancestors(k))
+        ok = any(_called_for_every_key(un, k, arg(k, 0, "circuit_id"), t) for k in calls(un, f"self.{rem}"))
         ctx.check(ok, "sockets", un, un.node, f"TunnelCommunity.unload removes every entry of {t}", f"{t} is not emptied on unload")
     au = repo.method("AttestationCommunity", "unload")
     cfg = ctx.cfg(au)
@@ -286,6 +477,84 @@ def rule_sockets(ctx: Ctx) -> None:
         ctx.check(bool(closes) or (owner is not None and owner.name == "TunnelProtocol"), "sockets", fi, c,
                   f"{owner.name if owner else '?'} opens a datagram endpoint and has a close()", "an opened datagram endpoint has no close in its owner")
     ctx.floor("sockets", n, 3)
+
+
+def _table_read(fi: FuncInfo, e: ast.AST, _depth: int = 0) -> str | None:
+    """`self.T` when e evaluates to an entry read out of the mapping self.T (`self.T.pop(k..)`, `self.T.get(k..)`, `self.T[k]`, or a local holding only such)."""
+    e = strip_cast(e)
+    if isinstance(e, ast.Call) and isinstance(e.func, ast.Attribute) and e.func.attr in ("pop", "get") and e.args:
+        t = chain(e.func.value)
+        return t if t and t.startswith("self.") and t.count(".") == 1 else None
+    if isinstance(e, ast.Subscript):
+        t = chain(e.value)
+        return t if t and t.startswith("self.") and t.count(".") == 1 else None
+    if isinstance(e, ast.Name) and _depth < 3 and e.id not in fi.params():
+        ts = {_table_read(fi, v, _depth + 1) if v is not None and i is None else None for _, v, i in local_defs(fi, e.id)}
+        return next(iter(ts)) if len(ts) == 1 else None
+    return None
+
+
+def _element_classes(ctx: Ctx, c: ClassInfo, table: str) -> list[ClassInfo]:
+    """Classes of the objects stored into the mapping `self.T` (from `self.T[k] = Ctor(...)`, also `self.T[k] = x = Ctor(...)`) anywhere in c's MRO."""
+    out: list[ClassInfo] = []
+    for k in c.mro():
+        for m in k.methods.values():
+            for st, _ in stores(m, table + "[]"):
+                v = strip_cast(getattr(st, "value", None)) if getattr(st, "value", None) is not None else None
+                v = resolve(m, v) if v is not None else None
+                if isinstance(v, ast.Call):
+                    e = ctx.repo.resolve_class_expr(k.module, v.func)
+                    if e is not None and e not in out:
+                        out.append(e)
+    return out
+
+
+def rule_release_window(ctx: Ctx) -> None:
+    """
+    An entry that a removal takes out of a table of open resources is closed without suspending in between.
+    unload finds what it has to close by enumerating these tables (checked in `sockets`) and waits only for the removals it started itself; every
+    other task is cancelled by shutdown_task_manager().  A removal that has already popped the entry and then suspends (e.g. sleeps
+    remove_tunnel_delay) holds the only reference to a still-open socket: unload cannot see it, cancels the suspended removal, and the
+    socket stays open - and keeps receiving - after unload.
+    """
+    n = 0
+    for c in overlay_classes(ctx):
+        for fi in c.methods.values():
+            rel = [(k, _table_read(fi, k.func.value)) for k in calls(fi) if isinstance(k.func, ast.Attribute) and k.func.attr in ("close", "shutdown_task_manager")]
+            tables = sorted({t for _, t in rel if t})
+            if not tables:
+                continue
+            cfg = ctx.cfg(fi)
+            for t in tables:
+                # only tables whose entries own tasks / sockets (TaskManager objects such as TunnelExitSocket); a Circuit.close() is bookkeeping
+                elem = _element_classes(ctx, c, t)
+                if elem and not any(e.is_subclass_of("TaskManager") for e in elem):
+                    continue
+                releases = [k for k, tt in rel if tt == t]
+                rel_nodes = {nn for k in releases for nn in cfg.nodes_for(k)}
+                removals: list[ast.AST] = [k for k in calls(fi) if chain(k.func) in (f"{t}.pop", f"{t}.popitem", f"{t}.clear")]
+                removals += [st for st, _ in stores(fi, f"{t}[]") if isinstance(st, ast.Delete)]
+                if not removals:
+                    continue
+                suspensions = [a for a in walk_no_nested(fi.node) if isinstance(a, (ast.Await, ast.AsyncWith, ast.AsyncFor))
+                               and not (isinstance(a, ast.Await) and any(a.value is k for k in releases))]
+                n += 1
+                bad = None
+                for r in removals:
+                    after = cfg.reach([v for rn in cfg.nodes_for(r) for v, lab in rn.succ])
+                    for a in suspensions:
+                        an = [x for x in cfg.nodes_for(a) if x in after and x not in rel_nodes]
+                        if an and rel_nodes & cfg.reach([v for x in an for v, lab in x.succ]):
+                            bad = (r, a)
+                            break
+                    if bad:
+                        break
+                ctx.check(bad is None, "release-window", fi, (bad[0] if bad else removals[0]),
+                          f"{fi.qualname}: an entry taken out of {t} is closed without suspending in between",
+                          f"{fi.qualname} takes the entry out of {t} (`{norm(bad[0])[:50]}`) and then suspends in `{norm(bad[1])[:60]}` before closing it: while the removal "
+                          f"sleeps the open socket is in no table, so {c.name}.unload (which enumerates {t}) neither closes it nor waits for this removal; "
+                          "shutdown_task_manager() cancels the sleeping removal and the socket stays open after unload" if bad else "")
+    ctx.floor("release-window", n, 1)
 
 
 def rule_tracked(ctx: Ctx) -> None:
@@ -313,6 +582,84 @@ def rule_tracked(ctx: Ctx) -> None:
                 ctx.check(ok, "tracked-background-work", fi, k, f"{fi.qualname}: ensure_future result is registered with the task manager or awaited",
                           "a background future is neither registered nor awaited: it survives shutdown_task_manager()")
     ctx.floor("tracked-background-work", n, 2)
+    # the low-level runners await the scheduled step ITSELF: cancelling the registered runner task (cancel_pending_task, shutdown, unload)
+    # is the only way a periodic / delayed step is stopped, and cancellation only travels through a direct await.  shield(), ensure_future(),
+    # create_task() or gather() around the step hand it to a separate, unregistered future that keeps running (and sending) after unload.
+    TM = "ipv8/taskmanager.py"
+    for rn in ("interval_runner", "delay_runner"):
+        fi = repo.func(TM, rn)
+        steps = [k for k in calls(fi) if isinstance(k.func, ast.Name) and k.func.id in fi.params()]
+        ctx.anchor(steps, f"call of the scheduled callable in {rn}")
+        for k in steps:
+            awaited, names, holders = _value_flow(fi, k)
+            ok = (awaited and len(holders) == 1) or any(isinstance(a, ast.Await) for a in _awaits_of_collections(fi, names) if len(holders) == 1)
+            ctx.check(ok, "tracked-background-work", fi, k, f"{rn} awaits the scheduled step directly (cancelling the runner cancels the step)",
+                      f"{rn} does not await `{norm(k)}` directly (it is wrapped in `{norm(parent(k))[:60]}`): cancelling the registered runner task no longer "
+                      "cancels a step that is in flight, so the step finishes - and sends packets - after unload has completed")
+    # ... and nowhere in task-manager code is work shielded from cancellation
+    scanned = 0
+    for fi in repo.all_functions():
+        if not (fi.module.relpath == TM or (fi.cls is not None and (fi.cls is tm or fi.cls.is_subclass_of("TaskManager")))):
+            continue
+        scanned += 1
+        for k in calls(fi, ["shield", "asyncio.shield"], nested=False):
+            ctx.check(False, "tracked-background-work", fi, k, "no asyncio.shield in task-manager code",
+                      f"{fi.qualname} shields `{norm(k)[:60]}` from cancellation: shield() runs its argument as a separate future that survives the cancellation "
+                      "of the registered task, i.e. it keeps running after shutdown_task_manager() / unload")
+    ctx.instance("tracked-background-work", TM, f"no asyncio.shield() in {scanned} functions of TaskManager and its subclasses")
+
+
+def _active_means_registered_and_running(ia: FuncInfo) -> bool:
+    """
+    Decision table of is_pending_task_active over the two facts it may depend on: the name maps to a task (`_pending_tasks.get(name)` is
+    truthy / is not None) and that task is done().  The result must be true exactly for (registered, not done), whatever mix of conditional
+    expression, if/return, and/or and early return computes it.
+    """
+    from ..boolfn import TableEvaluator
+    name = ia.params()[1]
+
+    def is_lookup(e: ast.AST) -> bool:
+        e = strip_cast(e)
+        return isinstance(e, ast.Call) and chain(e.func) == "self._pending_tasks.get" and not e.keywords and 1 <= len(e.args) <= 2 \
+            and chain(e.args[0]) == name and (len(e.args) == 1 or const_value(e.args[1]) is None)
+
+    def holds_lookup(e: ast.AST) -> bool:
+        if is_lookup(e):
+            return True
+        if isinstance(e, ast.Name) and e.id != name:
+            ds = local_defs(ia, e.id)
+            return bool(ds) and all(v is not None and i is None and is_lookup(v) for _, v, i in ds)
+        return False
+
+    def atom_of(e: ast.AST) -> str | None:
+        if is_lookup(e):
+            return "registered"
+        if isinstance(e, ast.Call) and isinstance(e.func, ast.Attribute) and e.func.attr == "done" and not e.args and holds_lookup(e.func.value):
+            return "done"
+        if isinstance(e, ast.Compare) and len(e.ops) == 1 and const_value(e.comparators[0]) is None and holds_lookup(e.left):
+            if isinstance(e.ops[0], ast.IsNot):
+                return "registered"
+            if isinstance(e.ops[0], ast.Is):
+                return "unregistered"
+        return None
+
+    def on_effect(s: ast.stmt, env: dict, ev: TableEvaluator) -> None:
+        if isinstance(s, ast.With):
+            ev._block(s.body, env)      # noqa: SLF001  the lock does not change the result
+        elif not isinstance(s, ast.Assert):
+            raise AnalysisError(f"undecided: is_pending_task_active contains `{norm(s)[:60]}`; cannot tabulate its result")
+
+    ev = TableEvaluator(ia, atom_of, on_effect=on_effect)
+    for registered in (False, True):
+        for done in (False, True):
+            try:
+                res = ev.run({"registered": registered, "unregistered": not registered, "done": done})
+                got = ev.truth(res)
+            except AnalysisError as e:
+                raise AnalysisError(f"undecided: result of is_pending_task_active for registered={registered} done={done}: {e}") from e
+            if got != (registered and not done):
+                return False
+    return True
 
 
 def rule_taskmanager(ctx: Ctx) -> None:
@@ -356,8 +703,7 @@ def rule_taskmanager(ctx: Ctx) -> None:
     ok = any(any(f.op == "truthy" and f.pos and chain(f.left) == "self._shutdown" for f in facts_at(cfg, c)) for c in cancels)
     ctx.check(ok, "taskmanager-gates", rt, rt.node, "a future handed in after shutdown is cancelled", "futures handed to register_task after shutdown keep running")
     ia = repo.method("TaskManager", "is_pending_task_active", TM)
-    rets = [r for r in walk_no_nested(ia.node) if isinstance(r, ast.Return)]
-    ok = len(rets) == 1 and norm(rets[0].value) == "not pending_task.done() if pending_task else False"
+    ok = _active_means_registered_and_running(ia)
     ctx.check(ok, "taskmanager-gates", ia, ia.node, "is_pending_task_active = registered and not done", "is_pending_task_active no longer means 'registered and not done'")
     # replace_task
     rp = repo.method("TaskManager", "replace_task", TM)
@@ -387,8 +733,14 @@ def rule_taskmanager(ctx: Ctx) -> None:
     ok = any(call_name(c) == "cancel" for c in calls(cp)) and any(chain(c.func) == "self._pending_tasks.pop" for c in calls(cp))
     ctx.check(ok, "taskmanager-gates", cp, cp.node, "cancel_pending_task cancels and unregisters the named task", "cancel_pending_task does not cancel")
     call_all = repo.method("TaskManager", "cancel_all_pending_tasks", TM)
-    ok = any(isinstance(n, ast.ListComp) and chain(n.elt.func if isinstance(n.elt, ast.Call) else n.elt) == "self.cancel_pending_task"
-             and norm(n.generators[0].iter) == "list(self._pending_tasks.keys())" for n in ast.walk(call_all.node))
+    ok = False
+    for k in calls(call_all, "self.cancel_pending_task"):
+        if not _called_for_every_key(call_all, k, arg(k, 0, "name"), "self._pending_tasks"):
+            continue
+        # ... and the cancelled futures are what the caller (shutdown_task_manager) gets back to wait for
+        _, names, holders = _value_flow(call_all, k)
+        rets = [r for r in walk_no_nested(call_all.node) if isinstance(r, ast.Return)]
+        ok = bool(rets) and all(r.value is not None and (any(strip_cast(r.value) is h for h in holders[1:]) or _carries(r.value, names)) for r in rets)
     ctx.check(ok, "taskmanager-gates", call_all, call_all.node, "cancel_all_pending_tasks cancels every registered name", "not every registered task is cancelled at shutdown")
     # delivery re-check
     dl = repo.method("Endpoint", "_deliver_later", "ipv8/messaging/interfaces/endpoint.py")
@@ -415,6 +767,7 @@ def run(ctx: Ctx) -> None:
     rule_listeners(ctx)
     rule_awaited_release(ctx)
     rule_sockets(ctx)
+    rule_release_window(ctx)
     from .c09 import rule_transports_stored
     rule_transports_stored(ctx, "sockets")
     from .c10 import rule_shutdown        # "runs no cache timeout after unload" rests on RequestCache.shutdown's ordering
@@ -470,6 +823,23 @@ WITNESSES = [
     {"name": "deliver_later without re-check", "file": "ipv8/messaging/interfaces/endpoint.py", "rule": "taskmanager-gates",
      "old": "        if self.is_open() and (packet[1][:self.prefixlen] in self._prefix_map or listener in self._listeners):\n            listener.on_packet(packet)",
      "new": "        if self.is_open():\n            listener.on_packet(packet)"},
+    {"name": "exit socket leaves its table before the removal delay", "rule": "release-window", "edits": [
+        {"file": TC, "old": "        exit_socket_to_destroy = self.exit_sockets.get(circuit_id, None)\n",
+         "new": "        exit_socket_to_destroy = self.exit_sockets.pop(circuit_id, None)\n"},
+        {"file": TC, "old": "        exit_socket = self.exit_sockets.pop(circuit_id, None)\n", "new": "        exit_socket = exit_socket_to_destroy\n"}]},
+    {"name": "periodic step detached from its runner", "file": "ipv8/taskmanager.py", "rule": "tracked-background-work",
+     "old": "        await interval_task(*args)\n", "new": "        ensure_future(interval_task(*args))\n"},
+    {"name": "delayed step started as its own future", "file": "ipv8/taskmanager.py", "rule": "tracked-background-work",
+     "old": "    await delayed_task(*args)\n", "new": "    await ensure_future(delayed_task(*args))\n"},
+    {"name": "is_pending_task_active ignores done()", "file": "ipv8/taskmanager.py", "rule": "taskmanager-gates",
+     "old": "            return not pending_task.done() if pending_task else False\n", "new": "            return pending_task is not None\n"},
+    {"name": "cancel_all_pending_tasks skips a name", "file": "ipv8/taskmanager.py", "rule": "taskmanager-gates",
+     "old": "for name in list(self._pending_tasks.keys())]", "new": "for name in list(self._pending_tasks.keys()) if name != \"_check_tasks\"]"},
+    {"name": "only one bootstrapper unloaded", "file": "ipv8/community.py", "rule": "super-chain",
+     "old": "        while self.bootstrappers:\n            bootstrapper = self.bootstrappers.pop()", "new": "        if self.bootstrappers:\n            bootstrapper = self.bootstrappers.pop()"},
+    {"name": "exit sockets removed only when enabled", "file": TC, "rule": "sockets",
+     "old": "        for circuit_id in list(self.exit_sockets.keys()):\n            removals.append(",
+     "new": "        for circuit_id in list(self.exit_sockets.keys()):\n            if self.exit_sockets[circuit_id].enabled:\n                removals.append("},
     {"name": "attestation db closed before super", "file": "ipv8/attestation/wallet/community.py", "rule": "sockets",
      "old": "        await super().unload()\n        # Close the database after we stop accepting requests.\n        self.database.close()",
      "new": "        self.database.close()\n        await super().unload()"},
